@@ -737,12 +737,34 @@ class TextXMetaModel(DebugPrinter):
                 if pre_ref_resolution_callback:
                     pre_ref_resolution_callback(other_model)
 
+            cached_before = None
+            if hasattr(self, "_tx_model_repository"):
+                cached_before = set(
+                    self._tx_model_repository.all_models.filename_to_model
+                )
+
             model = self._parser_blueprint.clone().get_model_from_str(
                 model_str, debug=debug, pre_ref_resolution_callback=kwargs_callback
             )
 
-            for p in self._model_processors:
-                p(model, self)
+            try:
+                for p in self._model_processors:
+                    p(model, self)
+            except:  # noqa
+                if cached_before is not None:
+                    # A model processor failed: models loaded by this (failed)
+                    # attempt must not stay in the global repository.
+                    from textx.scoping import remove_models_from_repositories
+
+                    all_models = self._tx_model_repository.all_models
+                    loaded_now = [
+                        m
+                        for fname, m in all_models.filename_to_model.items()
+                        if fname not in cached_before
+                    ]
+                    if hasattr(model, "_tx_metamodel"):
+                        remove_models_from_repositories([model], loaded_now)
+                raise
         else:
             model = self.internal_model_from_file(
                 file_name,
